@@ -162,7 +162,10 @@ class Placement(object):
         env = {}
         if self.gcp:
             if self.gcp_format == 'new':
-                env['GIT_CONFIG_PARAMETERS'] = ' '.join("'delta.%s'='%s'" % (k, v) for k, v in self.gcp.items())
+                # (a key given without a value - git -c delta.x - is written 'delta.x'= by git >= 2.31 and 'delta.x' before)
+                env['GIT_CONFIG_PARAMETERS'] = ' '.join(("'delta.%s'='%s'" % (k, v)) if v is not None else ("'delta.%s'=" % k) for k, v in self.gcp.items())
+            elif any(v is None for v in self.gcp.values()):
+                env['GIT_CONFIG_PARAMETERS'] = ' '.join(("'delta.%s=%s'" % (k, v)) if v is not None else ("'delta.%s'" % k) for k, v in self.gcp.items())
             else:
                 env['GIT_CONFIG_PARAMETERS'] = ' '.join("'delta.%s=%s'" % (k, v) for k, v in self.gcp.items())
         if self.env_features is not None:
@@ -270,11 +273,22 @@ def _families():
             for flag_where in ('cli-flag', 'main-flag', 'gcp-flag'):
                 for lst in ('unrelated', 'empty'):
                     yield ('flag-beside-list', (b, how, flag_where, lst))
+    # values that git -c accepts like a config file does: a key without a value (true), an empty value, a number with a suffix
+    for shape in ('bare', 'empty', 'suffix'):
+        for fmt_ in ('new', 'old'):
+            for other in (False, True):
+                yield ('gcp-value-shape', (shape, fmt_, other))
     for feats in ('side-by-side', 'diff-so-fancy', 'navigate', 'line-numbers', 'hyperlinks', 'diff-highlight', 'raw', 'side-by-side navigate',
                   'diff-so-fancy line-numbers', 'nonexistent side-by-side'):
         for how in ('arg', 'env', 'env+'):
             for flag in (None, 'navigate', 'side-by-side'):
                 yield ('no-gitconfig-equals-empty', (feats, how, flag))
+    # ... also when a configuration file is named beside --no-gitconfig and that file switches built-in features on (by a flag
+    # in [delta], in a features list, in a custom section that is reachable): none of it may show
+    for b in ('line-numbers', 'side-by-side', 'navigate', 'diff-so-fancy', 'hyperlinks', 'raw', 'color-only', 'diff-highlight'):
+        for shape in ('main-flag', 'main-features', 'section-flag', 'section-features'):
+            for where in ('--config', 'home'):
+                yield ('no-gitconfig-equals-empty', (None, 'cfg', (b, shape, where)))
     for combo in itertools.combinations(sorted(BUILTIN_SETS) + ['line-numbers', 'side-by-side', 'hyperlinks'], 2):
         yield ('determinism-flags', (combo, 'main'))
     for combo in itertools.combinations(sorted(BUILTIN_SETS) + ['line-numbers', 'side-by-side'], 3):
@@ -506,6 +520,20 @@ def build(family, params, defaults):
         p.expected = 'true' if truth else 'false'
         p.why = 'GIT_CONFIG_PARAMETERS (git -c delta.%s=%s) overrides the [delta] section; %r is one of git\'s spellings of %s' % (o, spelling, spelling, truth)
         p.nsources = 2
+    elif family == 'gcp-value-shape':
+        shape, fmt_, other = params
+        o, inmain, val, exp = {'bare': ('keep-plus-minus-markers', 'false', None, 'true'),
+                               'empty': ('file-modified-label', 'FROMFILE', '', ''),
+                               'suffix': ('max-line-length', '77', '1k', '1024')}[shape]
+        p = Placement(o)
+        p.main[o] = inmain
+        p.gcp[o] = val
+        if other:
+            p.gcp['file-added-label'] = 'other override'      # (a second override in the same variable)
+        p.gcp_format = fmt_
+        p.expected = exp
+        p.why = 'GIT_CONFIG_PARAMETERS (git -c delta.%s%s) overrides the [delta] section; a config file accepts the same spelling' % (o, '' if val is None else '=' + val)
+        p.nsources = 2
     elif family == 'builtin-named-section':
         b, how, nested = params
         if nested == 'features':
@@ -556,7 +584,21 @@ def build(family, params, defaults):
         p = Placement('line-numbers')
         p.no_gitconfig = True
         p.compare_with_empty = True
-        if how == 'arg':
+        if how == 'cfg':
+            b, shape, where = flag
+            flag = None
+            p.cfg_where = where
+            if shape == 'main-flag':
+                p.main[b] = 'true'
+            elif shape == 'main-features':
+                p.main['features'] = b
+            elif shape == 'section-flag':
+                p.main['features'] = 'f1'
+                p.sections['f1'] = {b: 'true'}
+            else:
+                p.main['features'] = 'f1'
+                p.sections['f1'] = {'features': b}
+        elif how == 'arg':
             p.features_arg = feats
         elif how == 'env':
             p.env_features = feats
@@ -625,7 +667,7 @@ def plan(ctx):
         rng = ctx.rng('c13')
         # the small families about interactions between sources (added after seeded changes slipped through a uniform
         # sample) run completely every time; the big product families are sampled
-        small = {'flag-beside-list', 'gcp-bool-spelling', 'builtin-named-section', 'no-gitconfig-equals-empty', 'source-beside-unrelated-flag', 'custom-before-builtin', 'named-before-flags'}
+        small = {'flag-beside-list', 'gcp-bool-spelling', 'gcp-value-shape', 'builtin-named-section', 'no-gitconfig-equals-empty', 'source-beside-unrelated-flag', 'custom-before-builtin', 'named-before-flags'}
         pinned = [it for it in items if fam[it[1]][0] in small]
         rest = [it for it in items if fam[it[1]][0] not in small]
         rng.shuffle(rest)
@@ -680,8 +722,13 @@ def run_placement(p, reps, label):
         # --no-gitconfig must give what an empty configuration gives
         empty = runner.write_file('c13_empty.gitconfig', '')
         args2 = []
+        skip = False
         for a in args:
-            if a == '--no-gitconfig':
+            if skip:
+                skip = False
+            elif a == '--config':
+                skip = True      # (the file named beside --no-gitconfig: replaced by the empty one)
+            elif a == '--no-gitconfig':
                 args2 += ['--config', empty]
             else:
                 args2.append(a)
